@@ -46,7 +46,9 @@ def child(job, wfd):
             except OSError:
                 res["listing"][d] = None
         import pytask
-        kw = {"ignore": job.get("ignore") or []}
+        kw = {}
+        if job.get("ignore") is not None:      # None: the option comes from pyproject.toml
+            kw["ignore"] = job["ignore"]
         if job.get("ptasks"):
             # programmatic tasks: functions taken from module files the harness wrote (each file imported once, under a
             # private name), optionally wrapped into TaskWithoutPath; the same object may be listed several times
